@@ -295,7 +295,7 @@ def _check_complete_pruning(ctx, f):
 
 
 # ---------------------------------------------------------------------------
-@rule("SIB9", ["C02", "C03"])
+@rule("SIB9", ["C02", "C03", "C05"])
 def sib9(ctx, pid):
     """Embedding threshold: a node is embedded iff len(rlp) < 32, in writer and reader alike; hashed children are 32 bytes."""
     eng = S(ctx)
@@ -436,7 +436,7 @@ def term_kinds(ctx, f, st, t, depth=0):
     return eng.kind_of(t, st.facts)
 
 
-@rule("TS9", ["C02", "C08"])
+@rule("TS9", ["C02", "C08", "C05"])
 def ts9(ctx, pid):
     """Canonical shape after every mutation: a branch is normalised on every path that may blank a slot (TS3);
     no extension with an empty path can be built (TS4); the child of every extension that is built is known to be a
@@ -604,9 +604,10 @@ def _arity(ctx):
         f = ctx.P.func(q)
         lits = {"cmp-len": set(), "slice-upper": set(), "index": set(), "range": set(), "mult": set()}
         for node in walk_shallow(f.node):
-            if isinstance(node, ast.Compare) and isinstance(node.left, ast.Call) and ast.unparse(node.left.func) == "len" \
-                    and isinstance(node.comparators[0], ast.Constant) and isinstance(node.comparators[0].value, int) and node.comparators[0].value > 2:
-                lits["cmp-len"].add(node.comparators[0].value)
+            if isinstance(node, ast.Compare) and len(node.ops) == 1:
+                for x_, y_ in ((node.left, node.comparators[0]), (node.comparators[0], node.left)):
+                    if isinstance(x_, ast.Call) and ast.unparse(x_.func) == "len" and isinstance(y_, ast.Constant) and isinstance(y_.value, int) and y_.value > 2:
+                        lits["cmp-len"].add(y_.value)
             if isinstance(node, ast.Subscript) and isinstance(node.slice, ast.Slice) and isinstance(node.slice.upper, ast.Constant) and node.slice.lower is None \
                     and isinstance(node.slice.upper.value, int) and node.slice.upper.value > 2:
                 lits["slice-upper"].add(node.slice.upper.value)
@@ -837,7 +838,7 @@ def route1(ctx, pid):
         calls = [n for n in walk_shallow(d.node) if isinstance(n, ast.Call)]
         ok = len(calls) == 1 and any(t.kind == "def" and t.func is c_.methods[mn] for t in ctx.R.resolve_call(calls[0], d, count=False)) \
             and [a.id if isinstance(a, ast.Name) else None for a in calls[0].args] == d.params[1:] \
-            and (mn in ("set", "delete") or any(isinstance(n, ast.Return) and n.value is calls[0] for n in walk_shallow(d.node)))
+            and (mn in ("set", "delete") or any(isinstance(n, ast.Return) and util.ret_deref(d, n) is calls[0] for n in walk_shallow(d.node)))
         if ok:
             ctx.ok("dunder:HexaryTrie.%s" % dn, d.loc(), "forwards its arguments in order to %s" % mn, nontrivial=False, rule="SIB1")
         else:
@@ -894,3 +895,136 @@ def route1(ctx, pid):
         ctx.bad(c, g.loc(), "_get lost the leaf or branch arm: %s" % {k: sorted(v) for k, v in rows.items()}, rule="ABS3")
     else:
         ctx.ok(c, g.loc(), "leaf value only under residual == leaf key; branch value slot only with an empty residual; blank / extension answer b''", rule="ABS3")
+
+
+# ---------------------------------------------------------------------------
+@rule("RECOUNT", ["C06"])
+def recount(ctx, pid):
+    """regenerate_ref_count - the recount the property names as the reference: a worklist started at the root
+    hash; a popped reference is skipped exactly when it is b'', an embedded node (list) or the blank root hash;
+    every other reference is counted once and its node expanded: branch -> the 16 children, extension -> the
+    child, leaf / blank -> nothing."""
+    eng = S(ctx)
+    f = H(ctx, "regenerate_ref_count")
+    cm = ctx.P.modules["trie.constants"]
+    bnh = ctx.P.const(cm, "BLANK_NODE_HASH")
+    root = ("attr", ("self",), "root_hash")
+    probs = []
+    rows = {}
+    n_it = 0
+    for p, st in pq.states(ctx, f, unroll=1):
+        # the first popped reference
+        K = None
+        counted = []
+        node1 = None
+        pushes = []
+        conds = set()
+        for ev in st.events:
+            if ev.k == "call" and ev.a == "ok" and isinstance(ev.node, ast.Call):
+                tg = ctx.R.resolve_call(ev.node, f, count=False)[0]
+                if tg.kind == "cmeth" and tg.meth == "pop" and K is None:
+                    # the local the popped reference is bound to
+                    for e2 in st.events:
+                        if e2.k == "stmt" and isinstance(e2.node, ast.Assign) and e2.node.value is ev.node and isinstance(e2.node.targets[0], ast.Name):
+                            K = st.env.get(e2.node.targets[0].id)
+                    if K is None:
+                        K = eng.ev(ev.node, f, st)
+                elif tg.kind == "def" and tg.func.name == "get_node" and node1 is None and K is not None:
+                    a = eng.ev(ev.node.args[0], f, st) if ev.node.args else None
+                    t = eng.ev(ev.node, f, st)
+                    if a == K:
+                        node1 = t
+                    else:
+                        probs.append((ev.node, "the node that is expanded is get_node(%s), not the reference just popped" % (tstr(a)[:40] if a else "?")))
+                elif tg.kind == "cmeth" and tg.meth in ("extend", "append", "insert") and node1 is not None:
+                    arg = eng.ev(ev.node.args[0], f, st) if ev.node.args else None
+                    if arg is not None and node1 in list(_subterms(arg)) + [arg]:
+                        pushes.append((tg.meth, arg))
+            if ev.k == "stmt" and isinstance(ev.node, ast.AugAssign) and isinstance(ev.node.target, ast.Subscript):
+                idx = eng.ev(ev.node.target.slice, f, st)
+                val = eng.ev(ev.node.value, f, st)
+                counted.append((idx, type(ev.node.op).__name__, val))
+        if K is None:
+            continue
+        wl = K[2][0] if K[0] == "call" and K[1] == "m:pop" else None
+        if wl is not None and wl[0] == "mut":
+            wl = wl[1]
+        if wl != ("list", (root,)):
+            probs.append((f.node, "the worklist does not start as [self.root_hash] (popped `%s`)" % tstr(K)[:60]))
+            continue
+        n_it += 1
+        first = [c_ for c_ in counted if c_[0] == K]
+        if first:
+            if first[0][1:] != ("Add", C(1)) or len(first) != 1:
+                probs.append((f.node, "a reference is counted by `%s`, expected exactly += 1" % (first,)))
+            # what was known about the popped reference when it was counted
+            for t, pol, _ in st.log:
+                r = rel_norm(t, pol) or truth_norm(t, pol)
+                if K in list(_subterms(r)) or (isinstance(r, tuple) and K in r):
+                    conds.add(r)
+            want = {("!=", K, C(b"")), (("call", "ext:isinstance", (K, ("g", "list")), ()), False), ("!=", K, C(bnh))}
+            got = {c_ for c_ in conds if not (c_[0] in ("==", "!=") and False)}
+            if not want <= got:
+                miss = want - got
+                probs.append((f.node, "a reference is counted without the skip test `%s` (b'' / embedded node / BLANK_NODE_HASH are not stored nodes)" % tstr(sorted(miss, key=str)[0])[:70]))
+            extra = {c_ for c_ in got - want if not _about_node(c_, node1)}
+            if extra:
+                probs.append((f.node, "a reference is counted only under the extra condition `%s`: stored nodes would be left out of the recount" % tstr(sorted(extra, key=str)[0])[:70]))
+        if node1 is not None and not first:
+            probs.append((f.node, "a reference is expanded without being counted by `+= 1` first"))
+        if node1 is not None:
+            ks = eng.kind_of(node1, st.facts)
+            if len(ks) == 1:
+                rows.setdefault(next(iter(ks)), set()).add(tuple(pushes))
+            elif pushes:
+                probs.append((f.node, "children are pushed without the node's type being decided"))
+    want_rows = {
+        "BRANCH": {(("extend", ("slice", None, None, C(16))),)},
+        "EXT": {(("append", ("sub", None, C(1))),)},
+        "LEAF": {()},
+        "BLANK": {()},
+    }
+    for k, wr in want_rows.items():
+        got = rows.get(k)
+        if got is None:
+            if k in ("BRANCH", "EXT"):
+                probs.append((f.node, "no path expands a %s node" % k.lower()))
+            continue
+        shape = set()
+        for pushes in got:
+            shp = []
+            for meth, arg in pushes:
+                if arg[0] == "slice":
+                    shp.append((meth, ("slice", None, arg[2], arg[3])))
+                elif arg[0] == "sub":
+                    shp.append((meth, ("sub", None, arg[2])))
+                else:
+                    shp.append((meth, arg))
+            shape.add(tuple(shp))
+        if shape != wr:
+            probs.append((f.node, "a %s node pushes %s, expected %s" % (k.lower(), sorted(map(str, shape)), sorted(map(str, wr)))))
+    c = "recount-table:HexaryTrie.regenerate_ref_count"
+    if probs:
+        node, why = probs[0]
+        ctx.bad(c, f.loc(node), why, witness={"problems": sorted({w for _, w in probs})})
+    elif n_it < 3 or not {"BRANCH", "EXT"} <= set(rows):
+        ctx.unsure(c, f.loc(), "regenerate_ref_count has a shape the rule does not recognise (%d iterations, kinds %s)" % (n_it, sorted(rows)))
+    else:
+        ctx.ok(c, f.loc(), "worklist from [root_hash]; skip exactly b'' / embedded list / BLANK_NODE_HASH; count += 1; branch -> node[:16], extension -> node[1], leaf / blank -> nothing")
+    # the result is the freshly built table
+    def _base(t):
+        while t is not None and t[0] == "upd":
+            t = t[1]
+        return t
+    rets = {_base(st.ret) for p, st in pq.states(ctx, f, unroll=1) if p.exit[0] == "return"}
+    if len(rets) == 1 and next(iter(rets))[0] == "call" and "defaultdict" in next(iter(rets))[1]:
+        ctx.ok("recount-result:HexaryTrie.regenerate_ref_count", f.loc(), "returns the table it built", nontrivial=False)
+    else:
+        ctx.bad("recount-result:HexaryTrie.regenerate_ref_count", f.loc(), "returns `%s`, not the recomputed table" % "; ".join(tstr(r)[:40] for r in rets))
+
+
+def _about_node(r, node1):
+    """a condition about the loaded node (its type), not about the reference"""
+    if node1 is None:
+        return False
+    return node1 in list(_subterms(r))
